@@ -30,8 +30,17 @@ namespace igris
 
         void move_front(type &obj)
         {
-            (obj.*member).next = head.next;
-            head.next = &(obj.*member);
+            slist_head *node = &(obj.*member);
+            for (slist_head *p = &head; p->next != &head; p = p->next)
+            {
+                if (p->next == node)
+                {
+                    p->next = node->next;
+                    break;
+                }
+            }
+            node->next = head.next;
+            head.next = node;
         }
 
         class iterator
